@@ -148,7 +148,8 @@ def judge(ctx, jobs):
 
 
 def check(ctx):
-    vlib.prove(ctx, ["KrillModel.Props.C08"])
+    vlib.translate(ctx, [("event_tasks", "EventTasks.lean")])
+    vlib.prove(ctx, ["KrillModel.Props.C08", "KrillModel.Props.C10Removal"])
     found = False
     if vlib.build_harness(ctx, ["fault"]):
         rnd = random.Random(ctx.seed)
